@@ -1,6 +1,6 @@
 SPECIFICATION Spec
 CONSTANTS
-  Fixed = FALSE
+  FixedGroups <- NoGroups
   Scenarios <- MCScenarios
 INVARIANTS RaceOnlyAtDeviation LockDiscipline
 CHECK_DEADLOCK FALSE
